@@ -149,6 +149,11 @@ func lexerGoroutines() int { return takeCensus().lexers }
 // Guarded runs parse.Parse under a watchdog, with a panic trap, a check for lexer
 // goroutines left behind and (with hooks) the channel events of the call.
 func Guarded(text string, lim Limits, wantEvents bool) Outcome {
+	return GuardedWith(text, lim, wantEvents, func(name, text string) (*parse.Tree, error) { return parse.Parse(name, text, nil) })
+}
+
+// GuardedWith is Guarded for a caller-supplied way of parsing (e.g. with interners shared with an earlier parse).
+func GuardedWith(text string, lim Limits, wantEvents bool, parseFn func(name, text string) (*parse.Tree, error)) Outcome {
 	var o Outcome
 	var mu sync.Mutex
 	var events []LexEvent
@@ -187,7 +192,7 @@ func Guarded(text string, lim Limits, wantEvents bool) Outcome {
 			}
 			ch <- r
 		}()
-		r.t, r.err = parse.Parse(InputName, text, nil)
+		r.t, r.err = parseFn(InputName, text)
 	}()
 	cpu0 := cpuTime()
 	start := time.Now()
